@@ -1,4 +1,5 @@
 """C43 — brick-generated implicit Jacobians are exact (DESIGN.md §4.4)."""
+import os
 import re
 
 import vfcore
@@ -9,7 +10,7 @@ from checks import gb_src43 as S
 META = {
     "engine": "gen", "level": "exploration", "design_ref": "DESIGN.md §4.4 C43",
     "technique": "the generator's own runtime monitor: brick configurations harvested from the repository's test behaviours are regenerated with @CompareToNumericalJacobian (+ perturbation and criterion) and mfront --debug, driven along strain paths in a worker process whose stdout (mismatch blocks, Newton iteration reports) is captured and parsed",
-    "text": "Every StandardElastoViscoPlasticity / StandardElasticity / DDIF2 brick file of mfront/tests/behaviours that uses an analytical jacobian is a configuration (stress potential x criterion x flow x isotropic/kinematic hardening x porosity nucleation). Quick: a greedy pairwise-covering sample of 8 configurations; thorough: all of them. Each is regenerated with the comparison keywords injected (hypotheses Tridimensional, PlaneStress, AxisymmetricalGeneralisedPlaneStress when the file supports all), compiled and driven along three strain paths (tension with partial unloading, shear, triaxial tension; about 30 steps each, elastic then inelastic). The behaviour compares its analytical jacobian blocks with centred finite differences at every Newton iterate and prints a block when they differ by more than its criterion: zero such blocks are expected. A first pass with the criterion set to 0 at run time makes every compared block visible (evidence: iterates and blocks really compared, largest difference per configuration). Iterates that follow a convergence rejected by the brick's status checks (elastic/plastic switch: the stored jacobian belongs to the previous status) are skipped and counted; a mismatch must persist with perturbations x10 and /10 to be reported.",
+    "text": "Every StandardElastoViscoPlasticity / StandardElasticity / DDIF2 brick file of mfront/tests/behaviours that uses an analytical jacobian is a configuration (stress potential x criterion x flow x isotropic/kinematic hardening x porosity nucleation). Quick: a greedy pairwise-covering sample of 8 configurations; thorough: all of them. Each is regenerated with the comparison keywords injected (hypotheses Tridimensional, PlaneStress, AxisymmetricalGeneralisedPlaneStress when the file supports all), compiled and driven along three strain paths (tension with partial unloading, shear, triaxial tension; about 30 steps each, elastic then inelastic). The behaviour compares its analytical jacobian blocks with centred finite differences at every Newton iterate and prints a block when they differ by more than its criterion: zero such blocks are expected. A first pass with the criterion set to 0 at run time makes every compared block visible (evidence: iterates and blocks really compared, largest difference per configuration). Judged: the comparison made at the converged state of every step (all calls request the consistent tangent operator), for blocks whose column unknown moved by more than 100 perturbations, relatively to the largest entry of the block when it exceeds 1, and only when the difference is the same (factor 2) with perturbations x10 and /10 (finite-difference truncation scales with the square of the perturbation, a wrong analytical term does not). Intermediate iterates (unknowns not observable: kinks at zero increments, status switches, frozen porosity of the staggered scheme) are counted, not judged.",
     "note": "Trusted: the comparison code emitted by NonLinearSystemSolverBase::writeComparisonToNumericalJacobian and operator<< of the tensor types (only used to read back the differences). Criterion 1e-6 (absolute, times the block size as the generated code does), perturbation 1e-9 on strain-like unknowns. Configurations needing unknown material properties or external files that are not found are skipped and listed.",
 }
 
@@ -18,6 +19,7 @@ PERTURBATION = 1e-9
 NSTEPS = (30, 45)
 BLOCK_HEAD = re.compile(r"^(\S+) (\S+)$")
 BLOCK_NAME = re.compile(r"^(df\w+_dd\w+)(\(\d+(?:,\d+)?\))? :$")
+NUM = re.compile(r"[-+]?(?:\d+\.?\d*(?:[eE][-+]?\d+)?|nan|inf)")
 ITER = re.compile(r"integrate\(\)\s*: iteration (\d+) : (\S+)")
 
 
@@ -77,13 +79,15 @@ def parse_stream(text, epsilon):
                     err, thr = float(m.group(1)), float(m.group(2))
                 except ValueError:
                     continue
-                # number of values of the block = values printed before the "ndf..." line
-                nval, j = 0, i + 2
+                # values of the analytical block = numbers printed before the "ndf..." line
+                vals, j = [], i + 2
                 while j < len(lines) and not lines[j].startswith("ndf") and j < i + 40:
-                    nval += len(re.findall(r"[-+]?(?:\d+\.?\d*(?:[eE][-+]?\d+)?|nan|inf)", lines[j].replace("[", " ").replace("]", " ").replace(",", " ")))
+                    vals += [float(x) for x in NUM.findall(lines[j].replace("[", " ").replace("]", " ").replace(",", " "))]
                     j += 1
+                nval = len(vals)
+                amax = max([abs(v) for v in vals if v == v] + [0.0])
                 st["blocks"].append({"hyp": cur[0], "loading": cur[1], "step": cur[2], "occ": cur[3], "iterate": it, "name": m2.group(1),
-                                     "idx": m2.group(2) or "", "err": err, "thr": thr, "switch": rejected, "staggered": stag, "nval": nval})
+                                     "idx": m2.group(2) or "", "err": err, "thr": thr, "switch": rejected, "staggered": stag, "nval": nval, "amax": amax})
     return st
 
 
@@ -130,10 +134,12 @@ def judgeable(b, st, order, perturbation, sizes=None):
     """may this printed block be judged?  -> (bool, reason)"""
     if b["switch"]:
         return False, "after-status-switch"
-    if b["iterate"] == 0 or b["iterate"] is None:
-        return False, "first-iterate-at-zero-increment"
-    if b["staggered"] and b["iterate"] != "final":
-        return False, "staggered-scheme-iterate"
+    if b["iterate"] != "final":
+        # the values of the unknowns at intermediate iterates are not observable: residuals guarded by `dp > 0`, power
+        # laws of the increment (strain-rate sensitivity), frozen porosity of the staggered scheme make the centred
+        # differences meaningless when an increment is (still) about zero.  Only the comparison made at the converged
+        # state (every call requests the consistent tangent operator) is judged; the others are counted.
+        return False, "intermediate-iterate"
     x, y = split_block(b["name"])
     incs = st["incs"].get((b["hyp"], b["loading"], b["step"], b["occ"]))
     od = order.get(b["hyp"], [])
@@ -144,6 +150,10 @@ def judgeable(b, st, order, perturbation, sizes=None):
         return False, "unknown-not-mapped"
     if not inc > MOVED * perturbation:
         return False, "unknown-did-not-move"
+    if b["thr"] > 0 and b["err"] <= b["thr"] * max(1.0, b.get("amax", 0.0)):
+        # the generated comparison is absolute; blocks whose entries are much larger than 1 (stiff flows, stress-like
+        # normalisations) are judged relatively to their largest entry
+        return False, "within-the-criterion-relative-to-the-block-magnitude"
     return True, ""
 
 
@@ -163,6 +173,9 @@ def select(ctx):
     cfgs = S.harvest()
     if not ctx.thorough:
         cfgs = S.pairwise_sample(cfgs, 8, seed=0)
+    only = os.environ.get("VF_C43_ONLY")  # debugging / replay aid: comma separated configuration names
+    if only:
+        cfgs = [c for c in S.harvest() if c["name"] in only.split(",")]
     specs = [S.spec(c, CRITERION, PERTURBATION) for c in cfgs]
     return [s for s in specs if s is not None]
 
@@ -236,7 +249,7 @@ def run(ctx):
         probe_ok = [b for b in st0["blocks"] if judgeable(b, st0, order, PERTURBATION, sizes)[0]]
         worst = max([b["err"] for b in probe_ok] + [0.0])
         # the generated code compares the block norm with (number of values of the block) x criterion
-        wr = [(b["err"] / (max(b["nval"], 1) * CRITERION), b["name"]) for b in probe_ok]
+        wr = [(b["err"] / (max(b["nval"], 1) * CRITERION * max(1.0, b.get("amax", 0.0))), b["name"]) for b in probe_ok]
         worst_ratio = max(wr + [(0.0, "")])
         nblk = {}
         for b in probe_ok:
@@ -254,20 +267,32 @@ def run(ctx):
         if st["iterates"] < 20 or len(probe_ok) < 20:
             ctx.inconc("%s: the comparison hardly ran (%d iterates, %d judgeable blocks seen with criterion 0)" % (name, st["iterates"], len(probe_ok)))
         if judged:
-            # confirm with two other perturbations
-            names = sorted({b["name"] for b in judged})
-            persist = set(names)
+            # A wrong analytical block differs from the centred differences by the same amount whatever the
+            # perturbation; truncation error of the differences (stiff residuals, small increments) scales with its
+            # square.  Confirm every mismatching iterate with perturbations x10 and /10: it is reported only when the
+            # same block is printed at the same iterate in the three runs with differences within a factor 2.
+            def ident(b):
+                return (b["hyp"], b["loading"], b["step"], b["occ"], b["iterate"], b["name"], b["idx"])
+            others = []
             for fac in (10.0, 0.1):
                 resx, rx = drive(ctx, s, libs[name], CRITERION, PERTURBATION * fac, nsteps, tag="c43c")
                 stx = parse_stream(rx.out, o["eps"]) if resx is not None else {"blocks": [], "incs": {}}
-                persist &= {b["name"] for b in stx["blocks"] if judgeable(b, stx, order, PERTURBATION * fac, sizes)[0]}
-            for nm in names:
-                wit = [b for b in judged if b["name"] == nm]
-                if nm in persist:
-                    w5 = [(b["hyp"], b["loading"], b["step"], b["iterate"], b["err"], b["thr"]) for b in wit[:6]]
-                    ctx.violation("%s:%s" % (name, nm), "analytical and numerical jacobian blocks %s differ above the criterion at %d iterates in %s "
-                                  "(perturbations 1e-8, 1e-9, 1e-10), first: %s" % (nm, len(wit), sorted({b["hyp"] for b in wit}), w5),
-                                  {"configuration": name, "features": s["features"], "block": nm, "witnesses": wit[:20], "text": s["text"]})
+                if resx is None:
+                    ctx.count("confirmation-run-failed")
+                others.append({ident(b): b["err"] for b in stx["blocks"] if judgeable(b, stx, order, PERTURBATION * fac, sizes)[0]})
+            confirmed = {}
+            for b in judged:
+                es = [b["err"]] + [d.get(ident(b)) for d in others]
+                if all(e is not None for e in es) and max(es) <= 2 * min(es):
+                    confirmed.setdefault(b["name"], []).append(b)
                 else:
-                    ctx.count("mismatch-not-reproduced-with-other-perturbation")
-    ctx.require(len(table) >= (6 if not ctx.thorough else 60), "too few configurations were driven (%d)" % len(table))
+                    ctx.count("mismatch-depending-on-the-perturbation (finite-difference error)")
+            table[name]["mismatch_blocks_confirmed"] = {k: len(v) for k, v in confirmed.items()}
+            table[name]["confirmation_runs_blocks"] = [len(d) for d in others]
+            for nm, wit in sorted(confirmed.items()):
+                w5 = [(b["hyp"], b["loading"], b["step"], b["iterate"], b["err"], b["thr"]) for b in wit[:6]]
+                ctx.violation("%s:%s" % (name, nm), "analytical and numerical jacobian blocks %s differ above the criterion at %d iterates in %s, "
+                              "by the same amount with perturbations 1e-8, 1e-9, 1e-10; first: %s" % (nm, len(wit), sorted({b["hyp"] for b in wit}), w5),
+                              {"configuration": name, "features": s["features"], "block": nm, "witnesses": wit[:20], "text": s["text"]})
+    if not os.environ.get("VF_C43_ONLY"):
+        ctx.require(len(table) >= (6 if not ctx.thorough else 60), "too few configurations were driven (%d)" % len(table))
